@@ -13,13 +13,15 @@ ASSUMPTIONS = [
 ]
 
 
-def run_focus(ctx, focus, n, corr=None):
+def run_focus(ctx, focus, n, corr=None, env=None, tag=''):
+    """env: extra environment of the harness process (e.g. TZ): the scenario classes are then prefixed with it and the
+    environment is stored in the case, so that a replay runs under the same one"""
     binp = ctx.go_build('e2e')
-    out = os.path.join(ctx.dir, 'e2e-%s.jsonl' % focus)
-    work = os.path.join(ctx.dir, 'work-' + focus)
+    out = os.path.join(ctx.dir, 'e2e-%s%s.jsonl' % (focus, tag))
+    work = os.path.join(ctx.dir, 'work-' + focus + tag)
     shutil.rmtree(work, ignore_errors=True)
     os.makedirs(work, exist_ok=True)
-    rc, o = ctx.run([binp, 'gen', focus, out, str(n), work], timeout=1500)
+    rc, o = ctx.run([binp, 'gen', focus, out, str(n), work], timeout=1500, env=env)
     shutil.rmtree(work, ignore_errors=True)
     if rc != 0:
         raise V.BuildError('e2e harness failed (%s): %s' % (focus, o[-2500:]))
@@ -34,5 +36,11 @@ def replay(ctx, case):
     json.dump(case.get('case', case), open(p, 'w'))
     work = os.path.join(ctx.dir, 'replay-work')
     os.makedirs(work, exist_ok=True)
-    rc, o = ctx.run([binp, 'replay', p, work])
+    inp = (case.get('case', case) or {}).get('input') or {}
+    if isinstance(inp, str):
+        try:
+            inp = json.loads(inp)
+        except ValueError:
+            inp = {}
+    rc, o = ctx.run([binp, 'replay', p, work], env=inp.get('env') or None)
     print(o)
